@@ -2990,7 +2990,13 @@ def transform_pseudo_instructions(items, constants, labels):
             env = ChainMap(constants, labels)
             value = imm.eval(position, env, item.line)
             value = c_int32(value).value  # signed imm
-            if value >= (-2**11) and value <= (2**11 - 1):
+            # the short form is final, so only take it if the value can no longer change (no labels involved)
+            try:
+                imm.eval(position, constants, item.line)
+                stable = True
+            except AssemblerError:
+                stable = False
+            if stable and value >= (-2**11) and value <= (2**11 - 1):
                 inst = ITypeInstruction(item.line, 'addi', rd=rd, rs1='x0', imm=Lo(imm))
                 # shrink all subsequent labels by 4
                 new_labels = {k: v - 4 for k, v in labels.items() if v > position}
